@@ -11,7 +11,8 @@ CONSTANTS Family, Depth
 (* and the same length range as r11 (10.0.0.0/8^11-11) and differs from it only in the length of  *)
 (* the covering prefix (h11 together with r11 is r11)                                              *)
 A4 == {"a", "b", "r9", "r11", "h11"}
-A6 == {"c"}
+(* c: one /33; r33: both /33s of the /32 - aggregated, one route-filter on the /32 with the range /33-/33 *)
+A6 == {"c", "r33"}
 Targets == {[v4 |-> s4, v6 |-> s6] : s4 \in SUBSET A4, s6 \in SUBSET A6}
 (* status of one policy in one run: not marked as managed any more, or marked with a target *)
 Status == {[marked |-> FALSE, v4 |-> {}, v6 |-> {}]} \cup {[marked |-> TRUE, v4 |-> t.v4, v6 |-> t.v6] : t \in Targets}
@@ -24,7 +25,9 @@ Kinds == {"open", "get-running", "get-candidate", "load", "commit", "close-db", 
 FaultKinds == {"rpc-error", "malformed", "wrong-id", "close-before", "close-after", "no-ok", "junos-error",
                (* other shapes of an error reply: next to the positive indication (either order), after a warning, *)
                (* with the base namespace bound to a prefix                                                       *)
-               "error+ok", "ok+error", "warning+error", "prefixed-error"}
+               "error+ok", "ok+error", "warning+error", "prefixed-error",
+               (* not a fault: a positive reply that is overtaken by the reply to the next request *)
+               "late-ok"}
 FaultCases ==
   {[n |-> n, target |-> "none", index |-> 0, kind |-> "none"] : n \in 0..3}
   \cup {[n |-> n, target |-> t, index |-> 0, kind |-> k] : n \in 0..3, t \in Kinds \ {"load"}, k \in FaultKinds}
